@@ -90,8 +90,8 @@ struct Worker {
 }
 
 fn spawn_worker(cfg: &PoolCfg) -> Worker {
-    let exe = std::env::current_exe().expect("current_exe");
-    let mut cmd = Command::new(exe);
+    // /proc/self/exe stays executable even when the file on disk is replaced by a rebuild
+    let mut cmd = Command::new("/proc/self/exe");
     cmd.arg("--worker").arg(&cfg.kind);
     cmd.stdin(Stdio::piped()).stdout(Stdio::piped());
     if std::env::var_os("VCHECK_DEBUG").is_none() {
